@@ -91,7 +91,7 @@ func countedLoop(l *Loop) *Counted {
 // countedLoopRotated recognises go/ssa's lowering of `for i := range n`:
 //
 //	pre:    if 0 < n goto body else exit
-//	body:   i = phi [pre: 0, latch: next] ... 
+//	body:   i = phi [pre: 0, latch: next] ...
 //	latch:  next = i + 1; if next < n goto body else exit
 //
 // The body runs max(n, 0) times with i = 0..n-1.
